@@ -34,6 +34,10 @@ ProgsReads == [c \in {"c0", "c1"} |-> IF c = "c0" THEN <<P("put", 1, 1, 1, -1), 
                                        ELSE <<Rd(1, "get"), P("del", 1, -1, -1, -1), Rd(1, "get")>>]
 CfgReads == Cfg(4, 2, 1)
 
+\* --- the recorded defects D2, D4, D11 in one short program (TLC's counterexamples are replayed on the real code)
+ProgsKnown == [c \in {"c0"} |-> <<P("put", 1, 1, 1, 1), Aw(1), P("put", 1, 1, 1, -1), P("pou", 1, -1, 3, -1), P("del", 1, -1, -1, -1), P("put", 1, 1, 1, -1)>>]
+CfgKnown == Cfg(2, 4, 8)
+
 \* --- general: one caller draws 3 operations from an alphabet over 2 keys (every write variant), sweeper and clock running
 AlphaGen == {P("put", 1, 1, 2, -1), P("put", 1, 1, 1, 1), P("put", 2, 1, 3, -1), P("pou", 1, 1, -1, -1), P("pou", 1, -1, 3, -1),
              P("pou", 1, -1, -1, 2), Rm(1), P("del", 1, -1, -1, -1), Rd(1, "get")}
